@@ -49,7 +49,7 @@ claimed = {
     note="Decimal arithmetic itself is trusted to shopspring/decimal. Known findings: float64 detour in abs/ceiling/floor/truncate; powInt32 overflow (uncallable).", ref="§3-C08"),
  "C01": dict(tech="crash-class inventory over the VTA-reachable repository functions: dominance/guard analysis, SCCP over operand-length classes, operator-token enumeration, visitor dispatch typing",
     text="Every instruction of a recognised crash class (explicit panic / panic helper, integer and decimal division, index and slice, unchecked type assertion, non-finite float into decimal, nil patch argument, nil expression node) and every loop in the repository functions reachable from Compile/Evaluate/Patch is an obligation that must be discharged by a guard holding on every path, a reviewed entry or a known finding. Decides the absence of these crash classes for all inputs; nil dereferences in general, third-party panics and stack exhaustion are not decided.",
-    note="Trusted: go/ssa, VTA call graph (reflection-only callees added as roots), library panic table (shopspring/decimal, regexp), reviewed.json (39 entries: reflect results, protopath invariants, grammar token positions, collection invariant). Assumes years 0..9999 and collections of System values / FHIR messages.", ref="§3-C01"),
+    note="Trusted: go/ssa, VTA call graph (reflection-only callees added as roots), library panic table (shopspring/decimal, regexp), reviewed.json (about 30 entries for this property: reflect results, protopath invariants; the grammar token positions and the reference split are checked facts now). Assumes years 0..9999 and collections of System values / FHIR messages.", ref="§3-C01"),
  "C07": dict(tech="SCCP over SSA under len(input)=0 / operand=empty hypotheses for every table entry and operator node",
     text="For every non-aggregate name of both function tables x every admitted arity, and every operator node x operand position, conditional constant propagation shows the only executable outcomes on an empty input/operand are (Empty, nil) or an argument-dependent error, and no crash site is executable. Exhaustive over the tables and nodes of the working tree.",
     note="Trusted: SCCP engine; aggregate list from the property statement. The producer of the empty collection (literal, path, variable) is not distinguished.", ref="§3-C07"),
